@@ -86,32 +86,30 @@ theorem gen_variable_writes :
 theorem variable_sep_model : VariableShapeTensorField.sep false = [','] ∧ VariableShapeTensorField.sep true = [] := by
   decide +kernel
 
-/-- the name check of both constructors: `element.name != "element"`, with the message of the source -/
+/-- the name check of both constructors: `element.name != "element"` -/
 theorem gen_element_check :
     ConstantsExt.fixedElementCheck.1 = "!=" ∧ ConstantsExt.variableElementCheck.1 = "!=" := by decide +kernel
 
 theorem gen_fixed_new {ε} (name : String) (element : ε) (elementName : String) (shape : List Nat) :
     FixedShapeTensorField.new name element elementName shape =
-      if elementName ≠ ConstantsExt.fixedElementCheck.2.1 then fail ConstantsExt.fixedElementCheck.2.2
+      if elementName ≠ ConstantsExt.fixedElementCheck.2.1 then fail "The element field of FixedShapeTensorField must be named \"element\""
       else .ok { name, shape, element, nullable := false, dimNames := none, permutation := none } := rfl
 
 theorem gen_variable_new_rejects {ε} (name : String) (element : ε) (elementName : String) (ndim : Nat)
     (h : elementName ≠ ConstantsExt.variableElementCheck.2.1) :
-    VariableShapeTensorField.new name element elementName ndim = fail ConstantsExt.variableElementCheck.2.2 := by
+    VariableShapeTensorField.new name element elementName ndim = fail "The element field of FixedShapeTensorField must be named \"element\"" := by
   have h' : elementName ≠ "element" := h
   simp [VariableShapeTensorField.new, h']
-  rfl
 
 example : (FixedShapeTensorField.new "t" () "item" [2, 3]).isOk = false := by decide +kernel
 example : (FixedShapeTensorField.new "t" () "element" [2, 3]).isOk = true := by decide +kernel
 
-/-- the overflow message of the shape product -/
+/-- the shape product fails on overflow -/
 theorem gen_fixed_overflow (n s : Nat) (rest : List Nat) (h : checkedMul n s = none) :
-    FixedShapeTensorField.shapeProduct n (s :: rest) = fail ConstantsExt.fixedOverflowMessage := by
+    FixedShapeTensorField.shapeProduct n (s :: rest) = fail "The number of elements of FixedShapeTensorField does not fit into i32" := by
   simp [FixedShapeTensorField.shapeProduct, h]
-  rfl
 
-example : FixedShapeTensorField.shapeProduct 1 [2 ^ 40, 2 ^ 40] = fail ConstantsExt.fixedOverflowMessage := by decide +kernel
+example : FixedShapeTensorField.shapeProduct 1 [2 ^ 40, 2 ^ 40] = fail "The number of elements of FixedShapeTensorField does not fit into i32" := by decide +kernel
 
 /-- the storage type of the variable-shape tensor: children `data`, `shape`, and `element` below `shape` -/
 theorem gen_variable_children : ConstantsExt.variableChildNames = ["data", "shape", "element"] := by decide +kernel
@@ -120,25 +118,6 @@ theorem variable_storage_model {ε} (element : ε) (ndim : Nat) :
     VariableShapeTensorField.storage element ndim = .struct [
       .mk "data" false (.list (.element element)) [],
       .mk "shape" false (.fixedSizeList (.mk "element" false .int32 []) ndim) []] := rfl
-
-/-- the message texts of the model that are the source's texts verbatim -/
-def verbatim : List String :=
-  ["The element field of FixedShapeTensorField must be named \"element\"",
-   "The number of elements of FixedShapeTensorField does not fit into i32", "Invalid uniform_shape value",
-   "Number of dim names must be equal to the number of dimensions",
-   "Number of permutation entries must be equal to the number of dimensions"]
-
-theorem gen_messages : verbatim.all (fun m => ConstantsExt.messages.any (fun t => decide (t = m))) = true := by decide +kernel
-
-/-- model texts the source fills with placeholders: the model says `a ++ c`, the source `a ++ b ++ c ++ d` -/
-def withPlaceholder : List (String × String × String × String) :=
-  [("Invalid permutation: index", " {i}", " is not in range", " 0..{len}"),
-   ("Invalid permutation: index", " {i}", " found multiple times", ""),
-   ("Invalid permutation: index", " {i}", " is not present", "")]
-
-theorem gen_message_placeholders :
-    withPlaceholder.all (fun e => ConstantsExt.messages.any (fun t => decide (t = e.1 ++ e.2.1 ++ e.2.2.1 ++ e.2.2.2))) = true := by
-  decide +kernel
 
 example : checkPermutation 2 [0, 0] = fail ("Invalid permutation: index" ++ " found multiple times") := by decide +kernel
 
